@@ -1,3 +1,494 @@
-(* LazyProofs2 — reserved for the proof agent owning this topic. *)
+(* LazyProofs2 — lazy-irrelevance and fuel monotonicity for lookupByDomain and
+   roots.lookup; tiny models of the entry points (Route, Reverse, Lookup, ServeHTTP
+   direct branch, Iter.Reverse, router and Txn) as wrappers of roots_lookup.
+   See docs/C01_lazy.md. *)
 From FoxBase Require Import Bytes.
-From FoxRoute Require Import Node Lookup Spec Tree.
+From FoxRoute Require Import Node Lookup Tree LazyProofs.
+Require Import Lia.
+Open Scope char_scope.
+
+(* ---------- lookupByDomain ---------- *)
+Definition DInv (ph : dphase) (s : st) : Prop :=
+  match ph with
+  | DBack => chain (List.length (ps s)) (sks s)
+  | _ => pcnt s <= List.length (ps s) /\ chain (pcnt s) (sks s)
+  end.
+
+Definition outd (rl rn : lres) (ph : dphase) (sn : st) : Prop :=
+  strong_rel rl rn \/ (rn = LPanic /\ ~ DInv ph sn).
+
+Lemma relaxd rl rn ph sn ph' sn' :
+  (DInv ph sn -> DInv ph' sn') -> outd rl rn ph' sn' -> outd rl rn ph sn.
+Proof. unfold outd; intuition. Qed.
+
+Ltac red_d :=
+  cbn [lz cur par cm cmn pcnt pkc sks ps tsr tn tps set_tsr push descend init_st par_is_leaf
+       dpush dgo map zsk sk_n sk_path sk_pcnt sk_child] in *.
+
+Ltac invd_solve :=
+  cbn [DInv chain cur par cm cmn pcnt pkc sks ps tsr tn tps sk_pcnt List.length
+       set_tsr push descend dpush dgo init_st];
+  intros; rewrite ?app_length, ?firstn_length; cbn [List.length];
+  repeat match goal with H : _ /\ _ |- _ => destruct H end;
+  repeat split; try lia; try (eapply chain_mono; [|eassumption]; lia); try assumption.
+
+(* the path sub-lookup: lazy on the lazy side, non-lazy on the other; results correspond *)
+Ltac sub_lbp :=
+  match goal with
+  | |- context[match lookup_by_path ?f ?c ?path true ?a ?b with _ => _ end] =>
+    match goal with
+    | |- context[match lookup_by_path f c path false ?a' ?b' with _ => _ end] =>
+      let HS := fresh "HS" in
+      pose proof (lookup_by_path_lazy_irrelevant f c path a b a' b') as HS;
+      destruct (lookup_by_path f c path true a b) as [? ? ? ?| |],
+               (lookup_by_path f c path false a' b') as [? ? ? ?| |];
+      cbn [strong_rel] in HS; try contradiction;
+      try match type of HS with _ /\ _ => destruct HS; subst end
+    end
+  end.
+
+Ltac leafd IH :=
+  lazymatch goal with
+  | |- outd (Found _ _ _ _) (Found _ _ _ _) _ _ => left; cbn; auto
+  | |- outd LPanic LPanic _ _ => left; exact I
+  | |- outd LOutOfFuel LOutOfFuel _ _ => left; exact I
+  | |- outd (lbd _ _ _ true ?ph' ?sl') (lbd _ _ _ false ?ph' ?sn') _ _ =>
+      eapply relaxd; [ | exact (IH ph' sn' (ps sl') (tps sl')) ]; invd_solve
+  end.
+
+Ltac dmsd := repeat (first [sub_lbp | dm]; red_d; try congruence).
+
+Lemma lbd_sim host path : forall f ph sn p tp,
+  outd (lbd f host path true ph (lz sn p tp)) (lbd f host path false ph sn) ph sn.
+Proof.
+  induction f as [|f IH]; intros ph sn p tp.
+  - left; exact I.
+  - destruct sn as [c pa m mn pc k sk psn t n tpsn].
+    destruct ph; cbn [lbd]; red_d.
+    + (* DWalk *) dmsd; leafd IH.
+    + (* DInner *) dmsd; leafd IH.
+    + (* DSelect *) dmsd; leafd IH.
+    + (* DAfter *) dmsd; leafd IH.
+    + (* DBack *)
+      destruct sk as [|s0 rest]; red_d.
+      * left; cbn; auto.
+      * change (Nat.ltb (List.length p) 0) with false; cbv iota.
+        dmsd; try leafd IH.
+        right; split; [reflexivity|].
+        cbn [DInv chain ps sks]; intros [H _].
+        match goal with E : Nat.ltb _ _ = true |- _ => apply Nat.ltb_lt in E; lia end.
+Qed.
+
+Theorem lbd_lazy_irrelevant : forall f host path ph sl sn, lazy_rel sl sn ->
+  match lbd f host path false ph sn with
+  | Found n t _ _ => exists p tp, lbd f host path true ph sl = Found n t p tp
+  | LOutOfFuel => lbd f host path true ph sl = LOutOfFuel
+  | LPanic => True
+  end.
+Proof.
+  intros f host path ph sl sn R. rewrite (lazy_rel_lz _ _ R).
+  destruct (lbd_sim host path f ph sn (ps sl) (tps sl)) as [H|[H _]]; [|rewrite H; exact I].
+  destruct (lbd f host path false ph sn), (lbd f host path true ph (lz sn (ps sl) (tps sl)));
+    cbn in H; try contradiction; try exact I; try reflexivity.
+  destruct H as [-> ->]; eauto.
+Qed.
+
+Theorem lbd_lazy_strong : forall f host path ph sl sn, lazy_rel sl sn -> DInv ph sn ->
+  strong_rel (lbd f host path true ph sl) (lbd f host path false ph sn).
+Proof.
+  intros f host path ph sl sn R I. rewrite (lazy_rel_lz _ _ R).
+  destruct (lbd_sim host path f ph sn (ps sl) (tps sl)) as [H|[_ H]]; [exact H|contradiction].
+Qed.
+
+Theorem lbd_lazy_irrelevant_iff : forall f host path ph sl sn, lazy_rel sl sn -> DInv ph sn ->
+  (forall n t, (exists p tp, lbd f host path true ph sl = Found n t p tp) <->
+               (exists p tp, lbd f host path false ph sn = Found n t p tp)) /\
+  (lbd f host path true ph sl = LPanic <-> lbd f host path false ph sn = LPanic) /\
+  (lbd f host path true ph sl = LOutOfFuel <-> lbd f host path false ph sn = LOutOfFuel).
+Proof. intros; apply strong_rel_iff, lbd_lazy_strong; assumption. Qed.
+
+Theorem lookup_by_domain_lazy_irrelevant : forall f target host path ps0 tps0 ps1 tps1,
+  strong_rel (lookup_by_domain f target host path true ps0 tps0)
+             (lookup_by_domain f target host path false ps1 tps1).
+Proof.
+  intros. unfold lookup_by_domain.
+  repeat (dm; try congruence); try (cbn; auto; fail);
+    (apply lbd_lazy_strong; [unfold lazy_rel; cbn; repeat split; reflexivity | cbn; repeat split; lia]).
+Qed.
+
+(* ---------- roots.lookup ---------- *)
+Ltac sub_lbdom :=
+  match goal with
+  | |- context[match lookup_by_domain ?f ?c ?host ?path true ?a ?b with _ => _ end] =>
+    match goal with
+    | |- context[match lookup_by_domain f c host path false ?a' ?b' with _ => _ end] =>
+      let HS := fresh "HS" in
+      pose proof (lookup_by_domain_lazy_irrelevant f c host path a b a' b') as HS;
+      destruct (lookup_by_domain f c host path true a b) as [? ? ? ?| |],
+               (lookup_by_domain f c host path false a' b') as [? ? ? ?| |];
+      cbn [strong_rel] in HS; try contradiction;
+      try match type of HS with _ /\ _ => destruct HS; subst end
+    end
+  end.
+
+Theorem roots_lookup_lazy_strong : forall f r m h p ps0 tps0 ps1 tps1,
+  strong_rel (roots_lookup f r m h p true ps0 tps0) (roots_lookup f r m h p false ps1 tps1).
+Proof.
+  intros. unfold roots_lookup.
+  repeat (first [sub_lbdom | dm]; try congruence);
+    first [ apply lookup_by_path_lazy_irrelevant | cbn; auto ].
+Qed.
+
+(* the observable part of a lookup result: (node, tsr), or the failure kind *)
+Inductive pres := PFound (n : option node) (tsr : bool) | PPanic | POutOfFuel.
+Definition proj (r : lres) : pres :=
+  match r with Found n t _ _ => PFound n t | LPanic => PPanic | LOutOfFuel => POutOfFuel end.
+
+Lemma strong_rel_proj rl rn : strong_rel rl rn <-> proj rl = proj rn.
+Proof.
+  destruct rl, rn; cbn; split; intros H; try contradiction; try discriminate; auto.
+  - destruct H; subst; reflexivity.
+  - inversion H; auto.
+Qed.
+
+Theorem roots_lookup_lazy_irrelevant_gen : forall f r m h p ps0 tps0 ps1 tps1,
+  proj (roots_lookup f r m h p true ps0 tps0) = proj (roots_lookup f r m h p false ps1 tps1).
+Proof. intros; apply strong_rel_proj, roots_lookup_lazy_strong. Qed.
+
+Theorem roots_lookup_lazy_irrelevant : forall fuel r m h p,
+  proj (roots_lookup fuel r m h p true [] []) = proj (roots_lookup fuel r m h p false [] []).
+Proof. intros; apply roots_lookup_lazy_irrelevant_gen. Qed.
+
+(* ---------- fuel monotonicity ---------- *)
+Lemma lookup_by_path_fuel_le : forall f k c path lazy ps0 tps0,
+  lookup_by_path f c path lazy ps0 tps0 = LOutOfFuel \/
+  lookup_by_path (f + k) c path lazy ps0 tps0 = lookup_by_path f c path lazy ps0 tps0.
+Proof. intros; unfold lookup_by_path; apply lbp_fuel_le. Qed.
+
+Ltac sub_fuel :=
+  match goal with
+  | |- context[match lookup_by_path (?f + ?k) ?c ?pa ?lz ?a ?b with _ => _ end] =>
+      let E := fresh "E" in
+      destruct (lookup_by_path_fuel_le f k c pa lz a b) as [E|E]; rewrite E;
+      [cbv iota; left; reflexivity|]
+  end.
+
+Lemma lbd_fuel_le : forall f host path lazy k ph s,
+  lbd f host path lazy ph s = LOutOfFuel \/ lbd (f + k) host path lazy ph s = lbd f host path lazy ph s.
+Proof.
+  induction f as [|f IH]; intros host path lazy k ph s; [left; reflexivity|].
+  destruct s as [c pa m mn pc kk sk psn t n tpsn].
+  destruct ph; cbn [Nat.add lbd]; red_d;
+    repeat (first [sub_fuel | dm]; red_d; try congruence);
+    solve [ apply IH | right; reflexivity ].
+Qed.
+
+Theorem lbd_fuel_mono : forall f k host path lazy ph s,
+  lbd f host path lazy ph s <> LOutOfFuel -> lbd (f + k) host path lazy ph s = lbd f host path lazy ph s.
+Proof. intros f k host path lazy ph s H. destruct (lbd_fuel_le f host path lazy k ph s); tauto. Qed.
+
+Lemma lookup_by_domain_fuel_le : forall f k target host path lazy ps0 tps0,
+  lookup_by_domain f target host path lazy ps0 tps0 = LOutOfFuel \/
+  lookup_by_domain (f + k) target host path lazy ps0 tps0 = lookup_by_domain f target host path lazy ps0 tps0.
+Proof.
+  intros. unfold lookup_by_domain.
+  repeat (dm; try congruence); solve [ apply lbd_fuel_le | right; reflexivity ].
+Qed.
+
+Theorem lookup_by_domain_fuel_mono : forall f k target host path lazy ps0 tps0,
+  lookup_by_domain f target host path lazy ps0 tps0 <> LOutOfFuel ->
+  lookup_by_domain (f + k) target host path lazy ps0 tps0 = lookup_by_domain f target host path lazy ps0 tps0.
+Proof. intros f k t h p l a b H. destruct (lookup_by_domain_fuel_le f k t h p l a b); tauto. Qed.
+
+Ltac sub_fuel_dom :=
+  match goal with
+  | |- context[match lookup_by_domain (?f + ?k) ?c ?h ?pa ?lz ?a ?b with _ => _ end] =>
+      let E := fresh "E" in
+      destruct (lookup_by_domain_fuel_le f k c h pa lz a b) as [E|E]; rewrite E;
+      [cbv iota; left; reflexivity|]
+  end.
+
+Lemma roots_lookup_fuel_le : forall f k r m h p lazy ps0 tps0,
+  roots_lookup f r m h p lazy ps0 tps0 = LOutOfFuel \/
+  roots_lookup (f + k) r m h p lazy ps0 tps0 = roots_lookup f r m h p lazy ps0 tps0.
+Proof.
+  intros. unfold roots_lookup.
+  repeat (first [sub_fuel_dom | dm]; try congruence);
+    solve [ apply lookup_by_path_fuel_le | right; reflexivity ].
+Qed.
+
+Theorem roots_lookup_fuel_mono : forall f k r m h p lazy ps0 tps0,
+  roots_lookup f r m h p lazy ps0 tps0 <> LOutOfFuel ->
+  roots_lookup (f + k) r m h p lazy ps0 tps0 = roots_lookup f r m h p lazy ps0 tps0.
+Proof. intros f k r m h p l a b H. destruct (roots_lookup_fuel_le f k r m h p l a b); tauto. Qed.
+
+Corollary roots_lookup_fuel_mono_le : forall f f' r m h p lazy ps0 tps0, f <= f' ->
+  roots_lookup f r m h p lazy ps0 tps0 <> LOutOfFuel ->
+  roots_lookup f' r m h p lazy ps0 tps0 = roots_lookup f r m h p lazy ps0 tps0.
+Proof.
+  intros f f' r m h p l a b L H. replace f' with (f + (f' - f)) by lia.
+  apply roots_lookup_fuel_mono, H.
+Qed.
+
+(* ---------- the entry points as wrappers of roots.lookup ----------
+   fox.go:277-332 (Router.Route / Reverse / Lookup), fox.go:531-555 (ServeHTTP, direct branch),
+   txn.go:202-268 (Txn.Route / Reverse / Lookup), iter.go:112-126 (Iter.Reverse).
+   All of them take a pooled context, reset *c.params to [:0] (resetNil / reset /
+   resetWithWriter; none of them resets tsrParams, hence the [tp0] argument = stale
+   tsrParams) and call roots.lookup on a roots value; they differ in the lazy flag, in
+   cmp.Or(path, "/") and in what they do with (n, tsr). *)
+Section EntryPoints.
+  Variable fuel : nat.
+  Variable strip_host_port : bytes -> bytes.          (* netutil.StripHostPort (node.go:97) *)
+  Variable split_host_path : bytes -> bytes * bytes.  (* SplitHostPath (path.go:170) *)
+  Variable ts_opt : route -> bool.    (* route.redirectTrailingSlash || route.ignoreTrailingSlash *)
+
+  Definition or_slash (p : bytes) : bytes := match p with [] => ["/"] | _ => p end.
+
+  (* tree.lookup / roots.lookup with a freshly reset context *)
+  Definition tree_lookup (r : roots) (method hostport path : bytes) (lazy : bool) (tp0 : list kv) : lres :=
+    roots_lookup fuel r method (strip_host_port hostport) path lazy [] tp0.
+
+  (* what an entry point selects: the matched node (its route is n.route) and the tsr flag *)
+  Inductive epres := EP (sel : option (node * bool)) | EPPanic | EPOutOfFuel.
+
+  (* n != nil && !tsr && n.route.pattern == pattern *)
+  Definition route_ep (r : roots) (method pattern : bytes) (tp0 : list kv) : epres :=
+    let '(host, path) := split_host_path pattern in
+    match tree_lookup r method host path true tp0 with
+    | Found (Some n) false _ _ =>
+        match nroute n with
+        | None => EPPanic                                            (* n.route.pattern, nil route *)
+        | Some rt => if bytes_eqb (rpat rt) pattern then EP (Some (n, false)) else EP None
+        end
+    | Found _ _ _ _ => EP None
+    | LPanic => EPPanic | LOutOfFuel => EPOutOfFuel
+    end.
+  Definition Router_Route := route_ep.
+  Definition Txn_Route := route_ep.
+
+  (* if n != nil { return n.route, tsr }; return nil, false *)
+  Definition Router_Reverse (r : roots) (method host path : bytes) (tp0 : list kv) : epres :=
+    match tree_lookup r method host (or_slash path) true tp0 with
+    | Found (Some n) t _ _ => EP (Some (n, t))
+    | Found None _ _ _ => EP None
+    | LPanic => EPPanic | LOutOfFuel => EPOutOfFuel
+    end.
+  (* Txn.Reverse has no cmp.Or(path, "/") *)
+  Definition Txn_Reverse (r : roots) (method host path : bytes) (tp0 : list kv) : epres :=
+    match tree_lookup r method host path true tp0 with
+    | Found (Some n) t _ _ => EP (Some (n, t))
+    | Found None _ _ _ => EP None
+    | LPanic => EPPanic | LOutOfFuel => EPOutOfFuel
+    end.
+
+  (* if n != nil { return n.route, c, tsr }; return nil, nil, tsr   (route part) *)
+  Definition lookup_ep (r : roots) (method host path : bytes) (tp0 : list kv) : epres :=
+    match tree_lookup r method host path false tp0 with
+    | Found (Some n) t _ _ => EP (Some (n, t))
+    | Found None _ _ _ => EP None
+    | LPanic => EPPanic | LOutOfFuel => EPOutOfFuel
+    end.
+  Definition Router_Lookup := lookup_ep.
+  Definition Txn_Lookup := lookup_ep.
+
+  (* ServeHTTP: if !tsr && n != nil { n.route.hall(c); return }  — EP None = not the direct branch *)
+  Definition ServeHTTP_direct (r : roots) (method host path : bytes) (tp0 : list kv) : epres :=
+    match tree_lookup r method host path false tp0 with
+    | Found (Some n) false _ _ => EP (Some (n, false))
+    | Found _ _ _ _ => EP None
+    | LPanic => EPPanic | LOutOfFuel => EPOutOfFuel
+    end.
+
+  (* Iter.Reverse, one method of the sequence:
+     n != nil && (!tsr || n.route.redirectTrailingSlash || n.route.ignoreTrailingSlash) *)
+  Definition Iter_Reverse1 (r : roots) (method host path : bytes) (tp0 : list kv) : epres :=
+    match tree_lookup r method host (or_slash path) true tp0 with
+    | Found (Some n) false _ _ => EP (Some (n, false))
+    | Found (Some n) true _ _ =>
+        match nroute n with
+        | None => EPPanic
+        | Some rt => if ts_opt rt then EP (Some (n, true)) else EP None
+        end
+    | Found None _ _ _ => EP None
+    | LPanic => EPPanic | LOutOfFuel => EPOutOfFuel
+    end.
+  Definition Iter_Reverse (r : roots) (methods : list bytes) (host path : bytes) (tp0 : list kv) :=
+    map (fun m => (m, Iter_Reverse1 r m host path tp0)) methods.
+
+  (* the caller-side filters, as functions of what Lookup selects *)
+  Definition direct_only (e : epres) : epres :=
+    match e with EP (Some (n, false)) => e | EP _ => EP None | _ => e end.
+  Definition pattern_only (pattern : bytes) (e : epres) : epres :=
+    match e with
+    | EP (Some (n, false)) =>
+        match nroute n with
+        | None => EPPanic
+        | Some rt => if bytes_eqb (rpat rt) pattern then e else EP None
+        end
+    | EP _ => EP None
+    | _ => e
+    end.
+  Definition tsr_opt_only (e : epres) : epres :=
+    match e with
+    | EP (Some (n, true)) =>
+        match nroute n with
+        | None => EPPanic
+        | Some rt => if ts_opt rt then e else EP None
+        end
+    | _ => e
+    end.
+
+  Lemma tree_lookup_proj r m h p tp0 tp1 :
+    proj (tree_lookup r m h p true tp0) = proj (tree_lookup r m h p false tp1).
+  Proof. apply roots_lookup_lazy_irrelevant_gen. Qed.
+
+  Ltac ep_tac r m h p tp0 tp1 :=
+    pose proof (tree_lookup_proj r m h p tp0 tp1) as HP;
+    destruct (tree_lookup r m h p true tp0) as [[?|] [|] ? ?| |],
+             (tree_lookup r m h p false tp1) as [[?|] [|] ? ?| |];
+    cbn in HP; try discriminate; try (inversion HP; subst); try reflexivity.
+
+  (* every entry point selects what Lookup selects on the same roots value, method, host and
+     (defaulted) path, whatever stale state the pooled contexts carry *)
+  Theorem entry_points_agree_lemma : forall r method host path pattern tp0 tp1,
+    Router_Reverse r method host path tp0 = Router_Lookup r method host (or_slash path) tp1 /\
+    Txn_Reverse r method host path tp0 = Txn_Lookup r method host path tp1 /\
+    ServeHTTP_direct r method host path tp0 = direct_only (Router_Lookup r method host path tp1) /\
+    Iter_Reverse1 r method host path tp0 = tsr_opt_only (Router_Lookup r method host (or_slash path) tp1) /\
+    Router_Route r method pattern tp0 =
+      pattern_only pattern (Router_Lookup r method (fst (split_host_path pattern)) (snd (split_host_path pattern)) tp1) /\
+    Txn_Route r method pattern tp0 =
+      pattern_only pattern (Txn_Lookup r method (fst (split_host_path pattern)) (snd (split_host_path pattern)) tp1) /\
+    Txn_Lookup r method host path tp0 = Router_Lookup r method host path tp1.
+  Proof.
+    intros r m h p pat tp0 tp1.
+    unfold Router_Reverse, Txn_Reverse, Router_Lookup, Txn_Lookup, ServeHTTP_direct, Iter_Reverse1,
+      Router_Route, Txn_Route, route_ep, lookup_ep, direct_only, tsr_opt_only, pattern_only.
+    destruct (split_host_path pat) as [ph pp]; cbn [fst snd].
+    repeat split.
+    - ep_tac r m h (or_slash p) tp0 tp1.
+    - ep_tac r m h p tp0 tp1.
+    - assert (HP : proj (tree_lookup r m h p false tp0) = proj (tree_lookup r m h p false tp1)).
+      { rewrite <- (tree_lookup_proj r m h p tp0 tp0). apply tree_lookup_proj. }
+      destruct (tree_lookup r m h p false tp0) as [[?|] [|] ? ?| |],
+               (tree_lookup r m h p false tp1) as [[?|] [|] ? ?| |];
+        cbn in HP; try discriminate; try (inversion HP; subst); try reflexivity.
+    - ep_tac r m h (or_slash p) tp0 tp1; destruct (nroute _); try reflexivity; destruct (ts_opt _); reflexivity.
+    - ep_tac r m ph pp tp0 tp1; destruct (nroute _); try reflexivity; destruct (bytes_eqb _ _); reflexivity.
+    - ep_tac r m ph pp tp0 tp1; destruct (nroute _); try reflexivity; destruct (bytes_eqb _ _); reflexivity.
+    - assert (HP : proj (tree_lookup r m h p false tp0) = proj (tree_lookup r m h p false tp1)).
+      { rewrite <- (tree_lookup_proj r m h p tp0 tp0). apply tree_lookup_proj. }
+      destruct (tree_lookup r m h p false tp0) as [[?|] [|] ? ?| |],
+               (tree_lookup r m h p false tp1) as [[?|] [|] ? ?| |];
+        cbn in HP; try discriminate; try (inversion HP; subst); try reflexivity.
+  Qed.
+End EntryPoints.
+
+(* Router.Reverse defaults the empty path to "/", Txn.Reverse does not: on the empty path the two
+   disagree (direct match of "/" vs. trailing-slash match of "/").  For a non-empty path they are
+   the same function. *)
+Lemma Router_Txn_Reverse_nonempty fuel shp r m h p tp0 : p <> [] ->
+  Router_Reverse fuel shp r m h p tp0 = Txn_Reverse fuel shp r m h p tp0.
+Proof. intros H; unfold Router_Reverse, Txn_Reverse, or_slash; destruct p; [congruence|reflexivity]. Qed.
+
+(* ---------- examples (non-vacuity) ---------- *)
+Definition mk_ri (pat : string) (pslen hs : nat) (id : N) : rinfo :=
+  {| ri_route := {| rpat := S2B pat; rid := id |}; ri_pslen := pslen; ri_hostsplit := hs |}.
+Definition ins_all (l : list rinfo) : roots :=
+  t_roots (fold_left (fun t ri => match insert t m_get ri with ROk t' => t' | _ => t end) l empty_txn).
+
+(* GET /a/{x}/b, /{y}/{z}/c, /f/*{w}/g, /a/{x}/c/ *)
+Definition ex_path_roots : roots := Eval vm_compute in
+  ins_all [mk_ri "/a/{x}/b" 1 0 1; mk_ri "/{y}/{z}/c" 2 0 2; mk_ri "/f/*{w}/g" 1 0 3; mk_ri "/a/{x}/c/" 1 0 4].
+(* ... plus {sub}.ex.com/u/{id}, {sub}.ex.com/u/{id}/x, a.{t}.com/u/{id} *)
+Definition ex_host_roots : roots := Eval vm_compute in
+  ins_all [mk_ri "/a/{x}/b" 1 0 1; mk_ri "/{y}/{z}/c" 2 0 2; mk_ri "{sub}.ex.com/u/{id}" 2 12 5;
+           mk_ri "{sub}.ex.com/u/{id}/x" 2 12 6; mk_ri "a.{t}.com/u/{id}" 2 9 7].
+Definition ex_fuel : nat := 150.
+
+Definition ex_path_node : node :=
+  match ex_path_roots with Node _ _ (c :: _) :: _ => c | _ => Node [] None [] end.
+Definition ex_host_node : node :=
+  match ex_host_roots with r :: _ => r | _ => Node [] None [] end.
+
+(* /a/foo/c : static a, x=foo, then b / "c/" fail (tsr candidate recorded), backtrack to {y}=a {z}=foo *)
+Example lbp_lazy_irrelevant_ex :
+  let s := init_st ex_path_node [] [] in
+  lazy_rel s s /\ Inv PWalk s /\
+  exists n kv1 kv2,
+    lbp ex_fuel (S2B "/a/foo/c") false PWalk s = Found (Some n) false [kv1; kv2] [(S2B "x", S2B "foo")] /\
+    lbp ex_fuel (S2B "/a/foo/c") true PWalk s = Found (Some n) false [] [].
+Proof.
+  cbv zeta. split; [unfold lazy_rel; cbn; repeat split; reflexivity|]. split; [apply Inv_init|].
+  do 3 eexists; split; vm_compute; reflexivity.
+Qed.
+
+(* infix catch-all through the sub-lookup: w = p/q *)
+Example lbp_lazy_irrelevant_catchall_ex :
+  exists n,
+    lookup_by_path ex_fuel ex_path_node (S2B "/f/p/q/g") false [] [] = Found (Some n) false [(S2B "w", S2B "p/q")] [] /\
+    lookup_by_path ex_fuel ex_path_node (S2B "/f/p/q/g") true [] [] = Found (Some n) false [] [].
+Proof. eexists; split; vm_compute; reflexivity. Qed.
+
+(* trailing-slash recommendation: "/a/v/b/" -> tsr of /a/{x}/b; tsrParams are recorded only when
+   not lazy (params holds the residue of the failed second attempt {y}/{z}) *)
+Example lbp_lazy_irrelevant_tsr_ex :
+  exists n,
+    lookup_by_path ex_fuel ex_path_node (S2B "/a/v/b/") false [] [] =
+      Found (Some n) true [(S2B "y", S2B "a"); (S2B "z", S2B "v")] [(S2B "x", S2B "v")] /\
+    lookup_by_path ex_fuel ex_path_node (S2B "/a/v/b/") true [] [] = Found (Some n) true [] [].
+Proof. eexists; split; vm_compute; reflexivity. Qed.
+
+(* host a.ex.com: static a -> a.{t}.com (t = ex), path /u/42/x fails there, backtrack (params
+   truncated to the saved count) to {sub} = a -> ex.com/u/{id}/x *)
+Example lbd_lazy_irrelevant_ex :
+  exists n,
+    lookup_by_domain ex_fuel ex_host_node (S2B "a.ex.com") (S2B "/u/42/x") false [] [] =
+      Found (Some n) false [(S2B "sub", S2B "a"); (S2B "id", S2B "42")] [] /\
+    lookup_by_domain ex_fuel ex_host_node (S2B "a.ex.com") (S2B "/u/42/x") true [] [] = Found (Some n) false [] [].
+Proof. eexists; split; vm_compute; reflexivity. Qed.
+
+Example roots_lookup_lazy_irrelevant_ex :
+  exists n,
+    roots_lookup ex_fuel ex_host_roots m_get (S2B "a.ex.com") (S2B "/u/42/x") false [] [] =
+      Found (Some n) false [(S2B "sub", S2B "a"); (S2B "id", S2B "42")] [] /\
+    roots_lookup ex_fuel ex_host_roots m_get (S2B "a.ex.com") (S2B "/u/42/x") true [] [] = Found (Some n) false [] [] /\
+    (* fallback to the path-only tree *)
+    exists n',
+    roots_lookup ex_fuel ex_host_roots m_get (S2B "a.ex.com") (S2B "/a/42/b") false [] [] =
+      Found (Some n') false [(S2B "x", S2B "42")] [] /\
+    roots_lookup ex_fuel ex_host_roots m_get (S2B "a.ex.com") (S2B "/a/42/b") true [] [] = Found (Some n') false [] [].
+Proof. eexists; split; [|split; [|eexists; split]]; vm_compute; reflexivity. Qed.
+
+Example fuel_mono_ex :
+  roots_lookup 60 ex_host_roots m_get (S2B "a.ex.com") (S2B "/u/42/x") false [] [] <> LOutOfFuel /\
+  roots_lookup 30 ex_host_roots m_get (S2B "a.ex.com") (S2B "/u/42/x") false [] [] = LOutOfFuel /\
+  lbp 60 (S2B "/a/foo/c") false PWalk (init_st ex_path_node [] []) <> LOutOfFuel /\
+  lbd 60 (S2B "a.ex.com") (S2B "/u/42/x") false DWalk (init_st ex_host_node [] []) <> LOutOfFuel.
+Proof. repeat split; vm_compute; congruence. Qed.
+
+Definition ex_strip (h : bytes) : bytes := h.                 (* hosts without port in the examples *)
+Definition ex_split (p : bytes) : bytes * bytes :=              (* SplitHostPath on the example pattern *)
+  match index_byte p "/" with Some i => (firstn i p, skipn i p) | None => (p, ["/"]) end.
+
+Example entry_points_agree_ex :
+  exists n,
+    Router_Lookup ex_fuel ex_strip ex_host_roots m_get (S2B "a.ex.com") (S2B "/u/42/x") [] = EP (Some (n, false)) /\
+    Router_Reverse ex_fuel ex_strip ex_host_roots m_get (S2B "a.ex.com") (S2B "/u/42/x") [] = EP (Some (n, false)) /\
+    ServeHTTP_direct ex_fuel ex_strip ex_host_roots m_get (S2B "a.ex.com") (S2B "/u/42/x") [] = EP (Some (n, false)) /\
+    Iter_Reverse1 ex_fuel ex_strip (fun _ => false) ex_host_roots m_get (S2B "a.ex.com") (S2B "/u/42/x") [] = EP (Some (n, false)) /\
+    nroute n = Some {| rpat := S2B "{sub}.ex.com/u/{id}/x"; rid := 6 |} /\
+    exists n',
+    Router_Route ex_fuel ex_strip ex_split ex_host_roots m_get (S2B "{sub}.ex.com/u/{id}/x") [] = EP (Some (n', false)) /\
+    nroute n' = nroute n.
+Proof. eexists; repeat split; try (vm_compute; reflexivity). eexists; split; vm_compute; reflexivity. Qed.
+
+(* witness: with GET / registered, Reverse(GET, "", "") is a direct match on the router and a
+   trailing-slash match on a transaction *)
+Definition ex_slash_roots : roots := Eval vm_compute in ins_all [mk_ri "/" 0 0 1].
+Theorem Txn_Reverse_empty_path_differs :
+  exists r m h n,
+    Router_Reverse ex_fuel ex_strip r m h [] [] = EP (Some (n, false)) /\
+    Txn_Reverse ex_fuel ex_strip r m h [] [] = EP (Some (n, true)).
+Proof. exists ex_slash_roots, m_get, [], (Node ["/"] (Some {| rpat := ["/"]; rid := 1 |}) []). split; vm_compute; reflexivity. Qed.
